@@ -240,6 +240,9 @@ namespace vm {
   // an asmjit mapping. Returns nullptr on failure.
   void* harness_map(int window, size_t size, int prot);
   void harness_unmap(void* p, size_t size);
+  // Observer of successful map / unmap events of asmjit (called inside the seam, in program order).
+  typedef void (*Observer)(void* ctx, bool mapped, const Mapping& m);
+  void set_observer(Observer fn, void* ctx);
   void reset_run_generation();
   void end_run_cleanup();   // unmaps excused / leaked mappings for real so address space does not fill up
 }
